@@ -442,7 +442,16 @@ impl<B> Flow<B, Await100> {
             flow.inner.call.analyze_request()?;
             Ok(Await100Result::SendBody(flow))
         } else {
-            Ok(Await100Result::RecvResponse(Flow::wrap(self.inner)))
+            // The server refused the body. The call goes straight to receiving the
+            // response without the body being sent.
+            let mut inner = self.inner;
+            let call = match inner.call {
+                CallHolder::WithBody(v) => v,
+                _ => unreachable!(),
+            };
+            inner.call = CallHolder::RecvResponse(call.into_receive_without_body());
+
+            Ok(Await100Result::RecvResponse(Flow::wrap(inner)))
         }
     }
 }
